@@ -20,6 +20,7 @@ import (
 	"crypto/sha256"
 	"encoding/json"
 	"fmt"
+	"io/fs"
 	"math"
 	"math/big"
 	"net/url"
@@ -29,6 +30,7 @@ import (
 	"sort"
 	"strings"
 	"sync"
+	"testing/fstest"
 	"time"
 
 	"oss.terrastruct.com/d2/d2graph"
@@ -339,7 +341,7 @@ func (r c26R) coq() string {
 	case 3:
 		return "(RExt " + coqBytes(r.S) + ")"
 	}
-	return "(RObj 1073741824)" // a nil entry where a pointer is required: dangling
+	return "(RExt [0])" // a nil entry where a pointer is required (e.g. inside ChildrenArray): no object has the ID "\x00"
 }
 
 func (r c26R) opt() string {
@@ -758,7 +760,19 @@ func c26Ctx() (context.Context, context.CancelFunc) {
 }
 
 // c26Render compiles, lays out (with the given core layout) and renders.
-func c26Render(ctx context.Context, text, engine string, theme int64, layout func(string) (d2graph.LayoutGraph, error), router func(string) (d2graph.RouteEdges, error)) (svg []byte, g *d2graph.Graph, err error) {
+// c26FS is the file set of a diagram with imports (nil when there are none); the diagram itself is index.d2
+func c26FS(files map[string]string) fs.FS {
+	if len(files) == 0 {
+		return nil
+	}
+	m := fstest.MapFS{}
+	for n, t := range files {
+		m[n] = &fstest.MapFile{Data: []byte(t)}
+	}
+	return m
+}
+
+func c26Render(ctx context.Context, text string, files map[string]string, engine string, theme int64, layout func(string) (d2graph.LayoutGraph, error), router func(string) (d2graph.RouteEdges, error)) (svg []byte, g *d2graph.Graph, err error) {
 	defer func() {
 		if e := recover(); e != nil {
 			err = fmt.Errorf("panic: %v", e)
@@ -769,12 +783,20 @@ func c26Render(ctx context.Context, text, engine string, theme int64, layout fun
 		return nil, nil, err
 	}
 	ro := &d2svg.RenderOpts{ThemeID: &theme}
-	d, g, err := d2lib.Compile(ctx, text, &d2lib.CompileOptions{Ruler: ruler, Layout: go2.Pointer(engine), LayoutResolver: layout, RouterResolver: router}, ro)
+	d, g, err := d2lib.Compile(ctx, text, &d2lib.CompileOptions{Ruler: ruler, Layout: go2.Pointer(engine), LayoutResolver: layout, RouterResolver: router,
+		FS: c26FS(files), InputPath: c26InputPath(files)}, ro)
 	if err != nil {
 		return nil, nil, err
 	}
 	svg, err = d2svg.Render(d, ro)
 	return svg, g, err
+}
+
+func c26InputPath(files map[string]string) string {
+	if len(files) == 0 {
+		return ""
+	}
+	return "index.d2"
 }
 
 func c26Hex(b []byte) string {
